@@ -1,6 +1,1270 @@
-//! C17 — not implemented yet.
+//! C17 — An Iceberg snapshot reads exactly its live data files.
+//!
+//! The module contains a minimal Iceberg *writer* (Parquet data files, Avro
+//! manifest files and manifest lists, `*.metadata.json` generations with the
+//! HadoopCatalog `vN`+`version-hint.text` layout, the pyiceberg
+//! `NNNNN-<uuid>` layout, or opaque names) and interprets a generated table
+//! *history* (`Vec<Step>`) twice:
+//!   * on disk, the way an Iceberg writer commits it (new manifests, carried
+//!     over manifests, tombstones, rewritten manifests, new manifest list, new
+//!     metadata generation);
+//!   * in a model `snapshot -> set of live data files -> rows` that is updated
+//!     directly by the operation's meaning (append: live ∪= new, remove:
+//!     live −= removed, manifest/metadata rewrites: unchanged) and never looks
+//!     at a manifest.
+//! Then for the table's current metadata generation (by version-hint, or by
+//! newest `last-updated-ms`) it opens the table at `None`, at every listed
+//! snapshot id and at unknown ids and compares `SELECT *` (multiset),
+//! `COUNT(*)` and the resolved file set with the model. A snapshot whose live
+//! set contains a delete file, a non-Parquet file or a remote URI, whose
+//! manifest / manifest list URI is remote, or which is empty, must be refused
+//! (`Err`); so must unknown ids and a never-written table.
+//!
+//! Accepted input domain (read from `storage/iceberg.rs`): format-version 1|2;
+//! `snapshots[].{snapshot-id,timestamp-ms,manifest-list}`; `current-snapshot-id`
+//! (null/absent = never written); `last-updated-ms`; manifest list records with a
+//! string `manifest_path`; manifest entries with int `status`, record `data_file`
+//! having string `file_path`, string `file_format`, optional int `content`; URIs
+//! `file:///abs`, `file:/abs`, `/abs`, table-relative. `physical/operators/iceberg.rs`
+//! (`IcebergScanExec`) is a legacy JSON-manifest operator that `register_iceberg`
+//! never reaches; it is outside this check.
 use super::Property;
+use crate::data::*;
+use crate::engine::*;
+use crate::runner::*;
+use apache_avro::types::Value as AV;
+use proptest::prelude::*;
+use query_engine::ExecutionContext;
+use serde::{Deserialize, Serialize};
+use std::collections::BTreeSet;
+use std::path::{Path, PathBuf};
+
+// ---------------------------------------------------------------------------
+// case
+// ---------------------------------------------------------------------------
+
+#[derive(Clone, Debug, Serialize, Deserialize)]
+pub struct NewFile {
+    /// rows of (k BIGINT, s VARCHAR); the writer prepends the file id
+    pub rows: Vec<Vec<Value>>,
+    /// 0 ordinary Parquet data file; 1 position-delete file; 2 equality-delete
+    /// file (v2 only, mapped to 3/4 for v1); 3 file_format ORC; 4 file_format
+    /// AVRO; 5 `s3://` file_path; 6 `hdfs://` file_path
+    pub bad: u8,
+}
+
+#[derive(Clone, Debug, Serialize, Deserialize)]
+pub enum Op {
+    /// new data files; `merge_into` = merge-append into an existing manifest
+    /// (its live entries become EXISTING) instead of adding a new manifest
+    Append { files: Vec<NewFile>, merge_into: Option<u16> },
+    /// remove live files: their manifests are rewritten with DELETED entries
+    Remove { sels: Vec<u16> },
+    /// remove + append in one snapshot
+    Overwrite { sels: Vec<u16>, files: Vec<NewFile> },
+    /// all live entries rewritten as EXISTING into one or two new manifests
+    RewriteManifests { split: bool },
+    /// new metadata generation, same snapshots (a property change)
+    RewriteMetadata { equal_ts: bool },
+    /// new metadata generation that drops all but the newest `keep` snapshots
+    /// (the current one always stays); `purge` deletes unreachable files
+    Expire { keep: u8, purge: bool },
+    /// new metadata generation whose current-snapshot-id is an older snapshot
+    Rollback { sel: u16 },
+}
+
+#[derive(Clone, Debug, Serialize, Deserialize)]
+pub struct Step {
+    pub op: Op,
+    /// 0 none; 1 the first manifest written by this step is listed under an
+    /// `s3://` URI; 2 the snapshot's manifest-list URI is `s3://`
+    pub remote: u8,
+    /// commit in the same millisecond as the previous generation (only where
+    /// the expected answer is still determined, see `World::tick`)
+    pub same_ms: bool,
+}
+
+#[derive(Clone, Debug, Serialize, Deserialize)]
+pub struct IceCase {
+    pub v2: bool,
+    /// 0 `vN.metadata.json` + version-hint.text; 1 `NNNNN-<uuid>.metadata.json`;
+    /// 2 opaque names (order unrelated to age); 3 `vN.metadata.json`, no hint
+    pub naming: u8,
+    pub hint_form: u8,
+    /// version-hint points this many generations behind the newest file
+    pub hint_lag: u8,
+    /// naming 0 only: last-updated-ms *decreases* with each generation
+    pub clock_skew: bool,
+    pub deflate: bool,
+    pub snaps_reversed: bool,
+    pub minus_one_current: bool,
+    pub drop_dead_manifests: bool,
+    pub crc_files: bool,
+    pub rg_size: usize,
+    /// cycled over every written reference: 0 file:///abs, 1 file:/abs, 2 /abs, 3 table-relative
+    pub uri_styles: Vec<u8>,
+    pub seed: u64,
+    pub steps: Vec<Step>,
+}
+
+// ---------------------------------------------------------------------------
+// writer + model
+// ---------------------------------------------------------------------------
+
+struct DataFile {
+    abs: PathBuf,
+    uri: String,
+    rows: Rows,
+    bad: u8,
+    record_count: i64,
+    size: i64,
+}
+struct Manifest {
+    abs: PathBuf,
+    uri: String,
+    remote: bool,
+    /// 0 data manifest, 1 delete manifest (list `content`)
+    content: i32,
+    entries: Vec<(i32, usize)>,
+    added_snapshot: i64,
+    length: i64,
+}
+struct Snap {
+    id: i64,
+    ts: i64,
+    parent: Option<i64>,
+    seq: i64,
+    list_abs: PathBuf,
+    list_uri: String,
+    list_remote: bool,
+    manifests: Vec<usize>,
+    /// THE MODEL: file ids live in this snapshot
+    live: BTreeSet<usize>,
+    operation: &'static str,
+}
+struct Gen {
+    file: PathBuf,
+    ts: i64,
+    snaps: Vec<usize>,
+    current: Option<usize>,
+}
+
+struct World<'a> {
+    c: &'a IceCase,
+    dir: PathBuf,
+    files: Vec<DataFile>,
+    manifests: Vec<Manifest>,
+    snaps: Vec<Snap>,
+    gens: Vec<Gen>,
+    now: i64,
+    uri_ctr: usize,
+    name_ctr: u64,
+    seq: i64,
+    used_ids: BTreeSet<i64>,
+    purged: bool,
+    wrote_deleted: bool,
+    wrote_existing: bool,
+    noops: usize,
+}
+
+fn mix(a: u64, b: u64) -> u64 {
+    let mut x = a ^ b.wrapping_mul(0x9E3779B97F4A7C15);
+    x ^= x >> 30;
+    x = x.wrapping_mul(0xBF58476D1CE4E5B9);
+    x ^= x >> 27;
+    x = x.wrapping_mul(0x94D049BB133111EB);
+    x ^= x >> 31;
+    x
+}
+
+const COLS: [(&str, ColType); 3] = [("fid", ColType::Int), ("k", ColType::Int), ("s", ColType::Str)];
+fn cols() -> Vec<Column> {
+    COLS.iter().map(|(n, t)| Column { name: n.to_string(), ty: *t }).collect()
+}
+
+const STATUS_EXISTING: i32 = 0;
+const STATUS_ADDED: i32 = 1;
+const STATUS_DELETED: i32 = 2;
+
+fn manifest_list_schema(v2: bool) -> apache_avro::Schema {
+    let partitions = r#"{"name":"partitions","type":["null",{"type":"array","items":{"type":"record","name":"r508","fields":[
+        {"name":"contains_null","type":"boolean","field-id":509},
+        {"name":"contains_nan","type":["null","boolean"],"default":null,"field-id":518},
+        {"name":"lower_bound","type":["null","bytes"],"default":null,"field-id":510},
+        {"name":"upper_bound","type":["null","bytes"],"default":null,"field-id":511}]},"element-id":508}],"default":null,"field-id":507}"#;
+    let s = if v2 {
+        format!(
+            r#"{{"type":"record","name":"manifest_file","fields":[
+            {{"name":"manifest_path","type":"string","field-id":500}},
+            {{"name":"manifest_length","type":"long","field-id":501}},
+            {{"name":"partition_spec_id","type":"int","field-id":502}},
+            {{"name":"content","type":"int","field-id":517}},
+            {{"name":"sequence_number","type":"long","field-id":515}},
+            {{"name":"min_sequence_number","type":"long","field-id":516}},
+            {{"name":"added_snapshot_id","type":"long","field-id":503}},
+            {{"name":"added_files_count","type":"int","field-id":504}},
+            {{"name":"existing_files_count","type":"int","field-id":505}},
+            {{"name":"deleted_files_count","type":"int","field-id":506}},
+            {{"name":"added_rows_count","type":"long","field-id":512}},
+            {{"name":"existing_rows_count","type":"long","field-id":513}},
+            {{"name":"deleted_rows_count","type":"long","field-id":514}},
+            {}]}}"#,
+            partitions
+        )
+    } else {
+        format!(
+            r#"{{"type":"record","name":"manifest_file","fields":[
+            {{"name":"manifest_path","type":"string","field-id":500}},
+            {{"name":"manifest_length","type":"long","field-id":501}},
+            {{"name":"partition_spec_id","type":"int","field-id":502}},
+            {{"name":"added_snapshot_id","type":["null","long"],"default":null,"field-id":503}},
+            {{"name":"added_data_files_count","type":["null","int"],"default":null,"field-id":504}},
+            {{"name":"existing_data_files_count","type":["null","int"],"default":null,"field-id":505}},
+            {{"name":"deleted_data_files_count","type":["null","int"],"default":null,"field-id":506}},
+            {}]}}"#,
+            partitions
+        )
+    };
+    apache_avro::Schema::parse_str(&s).expect("manifest list schema")
+}
+
+fn manifest_schema(v2: bool) -> apache_avro::Schema {
+    let s = if v2 {
+        r#"{"type":"record","name":"manifest_entry","fields":[
+        {"name":"status","type":"int","field-id":0},
+        {"name":"snapshot_id","type":["null","long"],"default":null,"field-id":1},
+        {"name":"sequence_number","type":["null","long"],"default":null,"field-id":3},
+        {"name":"file_sequence_number","type":["null","long"],"default":null,"field-id":4},
+        {"name":"data_file","type":{"type":"record","name":"r2","fields":[
+            {"name":"content","type":"int","field-id":134},
+            {"name":"file_path","type":"string","field-id":100},
+            {"name":"file_format","type":"string","field-id":101},
+            {"name":"partition","type":{"type":"record","name":"r102","fields":[]},"field-id":102},
+            {"name":"record_count","type":"long","field-id":103},
+            {"name":"file_size_in_bytes","type":"long","field-id":104},
+            {"name":"split_offsets","type":["null",{"type":"array","items":"long","element-id":133}],"default":null,"field-id":132},
+            {"name":"equality_ids","type":["null",{"type":"array","items":"int","element-id":136}],"default":null,"field-id":135},
+            {"name":"sort_order_id","type":["null","int"],"default":null,"field-id":140}
+        ]},"field-id":2}]}"#
+    } else {
+        r#"{"type":"record","name":"manifest_entry","fields":[
+        {"name":"status","type":"int","field-id":0},
+        {"name":"snapshot_id","type":"long","field-id":1},
+        {"name":"data_file","type":{"type":"record","name":"r2","fields":[
+            {"name":"file_path","type":"string","field-id":100},
+            {"name":"file_format","type":"string","field-id":101},
+            {"name":"partition","type":{"type":"record","name":"r102","fields":[]},"field-id":102},
+            {"name":"record_count","type":"long","field-id":103},
+            {"name":"file_size_in_bytes","type":"long","field-id":104},
+            {"name":"block_size_in_bytes","type":"long","field-id":105}
+        ]},"field-id":2}]}"#
+    };
+    apache_avro::Schema::parse_str(s).expect("manifest schema")
+}
+
+fn opt_long(v: Option<i64>) -> AV {
+    match v {
+        None => AV::Union(0, Box::new(AV::Null)),
+        Some(x) => AV::Union(1, Box::new(AV::Long(x))),
+    }
+}
+fn opt_int(v: Option<i32>) -> AV {
+    match v {
+        None => AV::Union(0, Box::new(AV::Null)),
+        Some(x) => AV::Union(1, Box::new(AV::Int(x))),
+    }
+}
+fn null_union() -> AV {
+    AV::Union(0, Box::new(AV::Null))
+}
+
+impl<'a> World<'a> {
+    fn new(c: &'a IceCase, dir: PathBuf) -> Self {
+        std::fs::create_dir_all(dir.join("metadata")).unwrap();
+        std::fs::create_dir_all(dir.join("data")).unwrap();
+        let mut w = World {
+            c,
+            dir,
+            files: vec![],
+            manifests: vec![],
+            snaps: vec![],
+            gens: vec![],
+            now: 1_700_000_000_000 + (c.seed % 1_000_000_007) as i64,
+            uri_ctr: 0,
+            name_ctr: 0,
+            seq: 0,
+            used_ids: BTreeSet::new(),
+            purged: false,
+            wrote_deleted: false,
+            wrote_existing: false,
+            noops: 0,
+        };
+        // generation 0: the table was created, never written to
+        w.commit_gen(vec![], None);
+        w
+    }
+
+    fn v2(&self) -> bool {
+        self.c.v2
+    }
+
+    fn hex(&mut self) -> String {
+        self.name_ctr += 1;
+        format!("{:016x}", mix(self.c.seed, self.name_ctr))
+    }
+    fn uuid(&mut self) -> String {
+        let a = self.hex();
+        let b = self.hex();
+        format!("{}-{}-{}-{}-{}", &a[0..8], &a[8..12], &a[12..16], &b[0..4], &b[4..16])
+    }
+
+    /// URI for a file that lives at `dir/rel`, in the next style of the cycle
+    fn uri(&mut self, rel: &str) -> String {
+        let style = if self.c.uri_styles.is_empty() {
+            0
+        } else {
+            self.c.uri_styles[self.uri_ctr % self.c.uri_styles.len()] % 4
+        };
+        self.uri_ctr += 1;
+        let abs = self.dir.join(rel);
+        let abs = abs.to_str().unwrap();
+        match style {
+            0 => format!("file://{}", abs),
+            1 => format!("file:{}", abs),
+            2 => abs.to_string(),
+            _ => rel.to_string(),
+        }
+    }
+    fn remote_uri(&self, scheme: &str, rel: &str) -> String {
+        format!("{}://warehouse-bucket/db/tbl/{}", scheme, rel)
+    }
+
+    fn new_snapshot_id(&mut self) -> i64 {
+        let mut k = self.used_ids.len() as u64 + 1;
+        loop {
+            let id = (mix(self.c.seed ^ 0xA5A5, k) >> 1) as i64;
+            if id > 0 && self.used_ids.insert(id) {
+                return id;
+            }
+            k += 1000;
+        }
+    }
+
+    /// advance the commit clock. Equal timestamps with *different* visible
+    /// content are generated only where the engine's documented rule still
+    /// determines the newest update: version-hint layouts (the hint decides),
+    /// and `NNNNN-<uuid>` names (the sequence prefix orders equal timestamps).
+    fn tick(&mut self, same_ms: bool, content_identical: bool) {
+        let may_tie = content_identical || matches!(self.c.naming, 0 | 1);
+        if self.c.naming == 0 && self.c.clock_skew {
+            if !(same_ms && may_tie) {
+                self.now -= 1 + (mix(self.c.seed, self.now as u64) % 5000) as i64;
+            }
+            return;
+        }
+        if !(same_ms && may_tie) {
+            self.now += 1 + (mix(self.c.seed, self.now as u64) % 5000) as i64;
+        }
+    }
+
+    fn current(&self) -> Option<usize> {
+        self.gens.last().and_then(|g| g.current)
+    }
+
+    // -- data files ---------------------------------------------------------
+
+    fn write_data(&mut self, nf: &NewFile) -> usize {
+        let id = self.files.len();
+        let mut bad = nf.bad;
+        if !self.v2() {
+            bad = match bad {
+                1 => 3,
+                2 => 4,
+                b => b,
+            };
+        }
+        let hex = self.hex();
+        let ext = match bad {
+            3 => "orc",
+            4 => "avro",
+            _ => "parquet",
+        };
+        let rel = format!("data/{:05}-{}.{}", id, hex, ext);
+        let abs = self.dir.join(&rel);
+        let rows: Rows = nf
+            .rows
+            .iter()
+            .map(|r| {
+                let mut v = vec![Value::Int(id as i64)];
+                v.extend(r.iter().cloned());
+                v
+            })
+            .collect();
+        let uri = match bad {
+            5 => self.remote_uri("s3", &rel),
+            6 => self.remote_uri("hdfs", &rel),
+            _ => self.uri(&rel),
+        };
+        match bad {
+            3 | 4 => std::fs::write(&abs, b"ORC\x00not really").unwrap(),
+            5 | 6 => {}
+            _ => {
+                use parquet::arrow::ArrowWriter;
+                use parquet::file::properties::WriterProperties;
+                let props = WriterProperties::builder()
+                    .set_max_row_group_size(self.c.rg_size.max(1))
+                    .build();
+                let batch = rows_to_batch(&cols(), &rows);
+                let f = std::fs::File::create(&abs).unwrap();
+                let mut w = ArrowWriter::try_new(f, batch.schema(), Some(props)).unwrap();
+                if batch.num_rows() > 0 {
+                    w.write(&batch).unwrap();
+                }
+                w.close().unwrap();
+            }
+        }
+        let size = std::fs::metadata(&abs).map(|m| m.len() as i64).unwrap_or(1234);
+        self.files.push(DataFile { abs, uri, record_count: rows.len() as i64, rows, bad, size });
+        id
+    }
+
+    // -- manifests ----------------------------------------------------------
+
+    fn codec(&self) -> apache_avro::Codec {
+        if self.c.deflate {
+            apache_avro::Codec::Deflate(Default::default())
+        } else {
+            apache_avro::Codec::Null
+        }
+    }
+
+    fn write_manifest(&mut self, snapshot_id: i64, content: i32, entries: Vec<(i32, usize)>, remote: bool) -> usize {
+        assert!(!entries.is_empty());
+        let rel = format!("metadata/{}-m{}.avro", self.uuid(), self.manifests.len());
+        let abs = self.dir.join(&rel);
+        let schema = manifest_schema(self.v2());
+        let mut w = apache_avro::Writer::with_codec(&schema, std::fs::File::create(&abs).unwrap(), self.codec()).unwrap();
+        w.add_user_metadata("format-version".to_string(), if self.v2() { "2" } else { "1" }).unwrap();
+        w.add_user_metadata("partition-spec".to_string(), "[]").unwrap();
+        w.add_user_metadata("partition-spec-id".to_string(), "0").unwrap();
+        w.add_user_metadata("schema".to_string(), iceberg_schema_json().to_string()).unwrap();
+        if self.v2() {
+            w.add_user_metadata("content".to_string(), if content == 0 { "data" } else { "deletes" }).unwrap();
+        }
+        for (status, fid) in &entries {
+            let f = &self.files[*fid];
+            match *status {
+                STATUS_DELETED => self.wrote_deleted = true,
+                STATUS_EXISTING => self.wrote_existing = true,
+                _ => {}
+            }
+            let format = match f.bad {
+                3 => "ORC",
+                4 => "AVRO",
+                // the reader compares case-insensitively; real writers emit upper case,
+                // some catalogs lower case
+                _ => {
+                    if fid % 3 == 2 {
+                        "parquet"
+                    } else {
+                        "PARQUET"
+                    }
+                }
+            };
+            let rec = if self.v2() {
+                let fcontent = match f.bad {
+                    1 => 1,
+                    2 => 2,
+                    _ => 0,
+                };
+                let df = AV::Record(vec![
+                    ("content".into(), AV::Int(fcontent)),
+                    ("file_path".into(), AV::String(f.uri.clone())),
+                    ("file_format".into(), AV::String(format.into())),
+                    ("partition".into(), AV::Record(vec![])),
+                    ("record_count".into(), AV::Long(f.record_count)),
+                    ("file_size_in_bytes".into(), AV::Long(f.size)),
+                    ("split_offsets".into(), AV::Union(1, Box::new(AV::Array(vec![AV::Long(4)])))),
+                    (
+                        "equality_ids".into(),
+                        if fcontent == 2 {
+                            AV::Union(1, Box::new(AV::Array(vec![AV::Int(1)])))
+                        } else {
+                            null_union()
+                        },
+                    ),
+                    ("sort_order_id".into(), opt_int(Some(0))),
+                ]);
+                AV::Record(vec![
+                    ("status".into(), AV::Int(*status)),
+                    ("snapshot_id".into(), opt_long(Some(snapshot_id))),
+                    ("sequence_number".into(), opt_long(if *status == STATUS_ADDED { None } else { Some(self.seq) })),
+                    ("file_sequence_number".into(), opt_long(if *status == STATUS_ADDED { None } else { Some(self.seq) })),
+                    ("data_file".into(), df),
+                ])
+            } else {
+                let df = AV::Record(vec![
+                    ("file_path".into(), AV::String(f.uri.clone())),
+                    ("file_format".into(), AV::String(format.into())),
+                    ("partition".into(), AV::Record(vec![])),
+                    ("record_count".into(), AV::Long(f.record_count)),
+                    ("file_size_in_bytes".into(), AV::Long(f.size)),
+                    ("block_size_in_bytes".into(), AV::Long(67108864)),
+                ]);
+                AV::Record(vec![
+                    ("status".into(), AV::Int(*status)),
+                    ("snapshot_id".into(), AV::Long(snapshot_id)),
+                    ("data_file".into(), df),
+                ])
+            };
+            w.append(rec).expect("append manifest entry");
+        }
+        w.flush().unwrap();
+        drop(w);
+        let length = std::fs::metadata(&abs).unwrap().len() as i64;
+        let uri = if remote { self.remote_uri("s3", &rel) } else { self.uri(&rel) };
+        self.manifests.push(Manifest { abs, uri, remote, content, entries, added_snapshot: snapshot_id, length });
+        self.manifests.len() - 1
+    }
+
+    fn live_entries_of(&self, m: usize) -> Vec<usize> {
+        self.manifests[m].entries.iter().filter(|(s, _)| *s != STATUS_DELETED).map(|(_, f)| *f).collect()
+    }
+
+    fn write_manifest_list(&mut self, snapshot_id: i64, manifests: &[usize], remote: bool) -> (PathBuf, String) {
+        let rel = format!("metadata/snap-{}-1-{}.avro", snapshot_id, self.uuid());
+        let abs = self.dir.join(&rel);
+        let schema = manifest_list_schema(self.v2());
+        let mut w = apache_avro::Writer::with_codec(&schema, std::fs::File::create(&abs).unwrap(), self.codec()).unwrap();
+        w.add_user_metadata("snapshot-id".to_string(), snapshot_id.to_string()).unwrap();
+        w.add_user_metadata("format-version".to_string(), if self.v2() { "2" } else { "1" }).unwrap();
+        for m in manifests {
+            let mf = &self.manifests[*m];
+            let cnt = |st: i32| mf.entries.iter().filter(|(s, _)| *s == st).count() as i32;
+            let rws = |st: i32| -> i64 {
+                mf.entries.iter().filter(|(s, _)| *s == st).map(|(_, f)| self.files[*f].record_count).sum()
+            };
+            let rec = if self.v2() {
+                AV::Record(vec![
+                    ("manifest_path".into(), AV::String(mf.uri.clone())),
+                    ("manifest_length".into(), AV::Long(mf.length)),
+                    ("partition_spec_id".into(), AV::Int(0)),
+                    ("content".into(), AV::Int(mf.content)),
+                    ("sequence_number".into(), AV::Long(self.seq)),
+                    ("min_sequence_number".into(), AV::Long(1)),
+                    ("added_snapshot_id".into(), AV::Long(mf.added_snapshot)),
+                    ("added_files_count".into(), AV::Int(cnt(STATUS_ADDED))),
+                    ("existing_files_count".into(), AV::Int(cnt(STATUS_EXISTING))),
+                    ("deleted_files_count".into(), AV::Int(cnt(STATUS_DELETED))),
+                    ("added_rows_count".into(), AV::Long(rws(STATUS_ADDED))),
+                    ("existing_rows_count".into(), AV::Long(rws(STATUS_EXISTING))),
+                    ("deleted_rows_count".into(), AV::Long(rws(STATUS_DELETED))),
+                    ("partitions".into(), AV::Union(1, Box::new(AV::Array(vec![])))),
+                ])
+            } else {
+                AV::Record(vec![
+                    ("manifest_path".into(), AV::String(mf.uri.clone())),
+                    ("manifest_length".into(), AV::Long(mf.length)),
+                    ("partition_spec_id".into(), AV::Int(0)),
+                    ("added_snapshot_id".into(), opt_long(Some(mf.added_snapshot))),
+                    ("added_data_files_count".into(), opt_int(Some(cnt(STATUS_ADDED)))),
+                    ("existing_data_files_count".into(), opt_int(Some(cnt(STATUS_EXISTING)))),
+                    ("deleted_data_files_count".into(), opt_int(Some(cnt(STATUS_DELETED)))),
+                    ("partitions".into(), null_union()),
+                ])
+            };
+            w.append(rec).expect("append manifest_file");
+        }
+        w.flush().unwrap();
+        drop(w);
+        let uri = if remote { self.remote_uri("s3", &rel) } else { self.uri(&rel) };
+        (abs, uri)
+    }
+
+    // -- commits ------------------------------------------------------------
+
+    /// carried-over manifests of the parent snapshot (optionally without the
+    /// ones that have no live entry left)
+    fn carried(&self, parent: Option<usize>) -> Vec<usize> {
+        match parent {
+            None => vec![],
+            Some(p) => self.snaps[p]
+                .manifests
+                .iter()
+                .copied()
+                .filter(|m| !(self.c.drop_dead_manifests && self.live_entries_of(*m).is_empty()))
+                .collect(),
+        }
+    }
+
+    fn commit_snapshot(
+        &mut self,
+        id: i64,
+        parent: Option<usize>,
+        manifests: Vec<usize>,
+        live: BTreeSet<usize>,
+        operation: &'static str,
+        step: &Step,
+    ) {
+        // writer self-check (not the oracle): what the manifests say == what the operation meant
+        let mut from_manifests = BTreeSet::new();
+        for m in &manifests {
+            for f in self.live_entries_of(*m) {
+                assert!(from_manifests.insert(f), "writer bug: file {} live twice", f);
+            }
+        }
+        assert_eq!(from_manifests, live, "writer bug: manifests disagree with the operation's meaning");
+
+        self.tick(step.same_ms, false);
+        let (list_abs, list_uri) = self.write_manifest_list(id, &manifests, step.remote == 2);
+        let s = Snap {
+            id,
+            ts: self.now,
+            parent: parent.map(|p| self.snaps[p].id),
+            seq: self.seq,
+            list_abs,
+            list_uri,
+            list_remote: step.remote == 2,
+            manifests,
+            live,
+            operation,
+        };
+        self.snaps.push(s);
+        let sidx = self.snaps.len() - 1;
+        let mut listed = self.gens.last().map(|g| g.snaps.clone()).unwrap_or_default();
+        listed.push(sidx);
+        self.write_gen(listed, Some(sidx));
+    }
+
+    /// new metadata generation (clock already advanced by the caller)
+    fn write_gen(&mut self, snaps: Vec<usize>, current: Option<usize>) {
+        let n = self.gens.len();
+        let name = match self.c.naming {
+            0 | 3 => format!("v{}.metadata.json", n + 1),
+            1 => format!("{:05}-{}.metadata.json", n, self.uuid()),
+            _ => format!("{}.metadata.json", self.hex()),
+        };
+        let file = self.dir.join("metadata").join(&name);
+        let mut order = snaps.clone();
+        if self.c.snaps_reversed {
+            order.reverse();
+        }
+        let snaps_json: Vec<serde_json::Value> = order
+            .iter()
+            .map(|i| {
+                let s = &self.snaps[*i];
+                let mut j = serde_json::json!({
+                    "snapshot-id": s.id,
+                    "timestamp-ms": s.ts,
+                    "manifest-list": s.list_uri,
+                    "summary": {"operation": s.operation},
+                    "schema-id": 0,
+                });
+                if let Some(p) = s.parent {
+                    j["parent-snapshot-id"] = serde_json::json!(p);
+                }
+                if self.v2() {
+                    j["sequence-number"] = serde_json::json!(s.seq);
+                }
+                j
+            })
+            .collect();
+        let cur_json = match current {
+            Some(i) => serde_json::json!(self.snaps[i].id),
+            None => {
+                if self.c.minus_one_current {
+                    serde_json::json!(-1)
+                } else {
+                    serde_json::Value::Null
+                }
+            }
+        };
+        let mut meta = serde_json::json!({
+            "format-version": if self.v2() { 2 } else { 1 },
+            "table-uuid": "9c12d441-03fe-4693-9a96-a0705ddf69c1",
+            "location": format!("file://{}", self.dir.display()),
+            "last-updated-ms": self.now,
+            "last-column-id": 3,
+            "partition-specs": [{"spec-id": 0, "fields": []}],
+            "default-spec-id": 0,
+            "last-partition-id": 999,
+            "properties": {"generation": n.to_string()},
+            "current-snapshot-id": cur_json,
+            "snapshots": snaps_json,
+            "snapshot-log": snaps.iter().map(|i| serde_json::json!({"snapshot-id": self.snaps[*i].id, "timestamp-ms": self.snaps[*i].ts})).collect::<Vec<_>>(),
+            "metadata-log": self.gens.iter().map(|g| serde_json::json!({"metadata-file": g.file.to_str().unwrap(), "timestamp-ms": g.ts})).collect::<Vec<_>>(),
+            "sort-orders": [{"order-id": 0, "fields": []}],
+            "default-sort-order-id": 0,
+        });
+        if self.v2() {
+            meta["last-sequence-number"] = serde_json::json!(self.seq);
+            meta["schemas"] = serde_json::json!([iceberg_schema_json()]);
+            meta["current-schema-id"] = serde_json::json!(0);
+            if let Some(i) = current {
+                meta["refs"] = serde_json::json!({"main": {"snapshot-id": self.snaps[i].id, "type": "branch"}});
+            }
+        } else {
+            meta["schema"] = iceberg_schema_json();
+            meta["partition-spec"] = serde_json::json!([]);
+        }
+        std::fs::write(&file, serde_json::to_string_pretty(&meta).unwrap()).unwrap();
+        if self.c.crc_files {
+            std::fs::write(self.dir.join("metadata").join(format!(".{}.crc", name)), [0u8, 1, 2, 3]).unwrap();
+        }
+        self.gens.push(Gen { file, ts: self.now, snaps, current });
+    }
+
+    fn commit_gen(&mut self, snaps: Vec<usize>, current: Option<usize>) {
+        self.write_gen(snaps, current);
+    }
+
+    /// split entries of freshly added files into (data manifest, delete manifest)
+    fn manifests_for_new(&mut self, id: i64, new: &[usize], extra_existing: &[usize], remote_first: &mut bool) -> Vec<usize> {
+        let mut data: Vec<(i32, usize)> = extra_existing.iter().map(|f| (STATUS_EXISTING, *f)).collect();
+        let mut dels: Vec<(i32, usize)> = vec![];
+        for f in new {
+            if matches!(self.files[*f].bad, 1 | 2) {
+                dels.push((STATUS_ADDED, *f));
+            } else {
+                data.push((STATUS_ADDED, *f));
+            }
+        }
+        let mut out = vec![];
+        if !data.is_empty() {
+            let r = std::mem::replace(remote_first, false);
+            out.push(self.write_manifest(id, 0, data, r));
+        }
+        if !dels.is_empty() {
+            let r = std::mem::replace(remote_first, false);
+            out.push(self.write_manifest(id, 1, dels, r));
+        }
+        out
+    }
+
+    /// rewrite every carried manifest that holds a live entry in `gone`
+    fn tombstone(&mut self, id: i64, carried: Vec<usize>, gone: &BTreeSet<usize>, remote_first: &mut bool) -> Vec<usize> {
+        let mut out = vec![];
+        for m in carried {
+            let hit = self.live_entries_of(m).iter().any(|f| gone.contains(f));
+            if !hit {
+                out.push(m);
+                continue;
+            }
+            let entries: Vec<(i32, usize)> = self
+                .live_entries_of(m)
+                .into_iter()
+                .map(|f| if gone.contains(&f) { (STATUS_DELETED, f) } else { (STATUS_EXISTING, f) })
+                .collect();
+            let content = self.manifests[m].content;
+            let r = std::mem::replace(remote_first, false);
+            out.push(self.write_manifest(id, content, entries, r));
+        }
+        out
+    }
+
+    fn pick_gone(&self, parent: usize, sels: &[u16]) -> BTreeSet<usize> {
+        let live: Vec<usize> = self.snaps[parent].live.iter().copied().collect();
+        let mut gone = BTreeSet::new();
+        for s in sels {
+            gone.insert(live[pick_idx(*s, live.len())]);
+        }
+        if gone.is_empty() {
+            gone.insert(live[0]);
+        }
+        gone
+    }
+
+    fn apply(&mut self, step: &Step) {
+        let parent = self.current();
+        let mut remote_first = step.remote == 1;
+        match &step.op {
+            Op::Append { files, merge_into } => {
+                self.seq += 1;
+                let id = self.new_snapshot_id();
+                let new: Vec<usize> = files.iter().map(|f| self.write_data(f)).collect();
+                let mut list = self.carried(parent);
+                let new_ms = match merge_into {
+                    Some(sel) if list.iter().any(|m| self.manifests[*m].content == 0) => {
+                        let datas: Vec<usize> = list.iter().copied().filter(|m| self.manifests[*m].content == 0).collect();
+                        let x = datas[pick_idx(*sel, datas.len())];
+                        list.retain(|m| *m != x);
+                        let existing = self.live_entries_of(x);
+                        self.manifests_for_new(id, &new, &existing, &mut remote_first)
+                    }
+                    _ => self.manifests_for_new(id, &new, &[], &mut remote_first),
+                };
+                let mut manifests = new_ms;
+                manifests.extend(list);
+                let mut live = parent.map(|p| self.snaps[p].live.clone()).unwrap_or_default();
+                live.extend(new.iter().copied());
+                self.commit_snapshot(id, parent, manifests, live, "append", step);
+            }
+            Op::Remove { sels } => {
+                let p = match parent {
+                    Some(p) if !self.snaps[p].live.is_empty() => p,
+                    _ => {
+                        self.noops += 1;
+                        return;
+                    }
+                };
+                self.seq += 1;
+                let id = self.new_snapshot_id();
+                let gone = self.pick_gone(p, sels);
+                let carried = self.carried(parent);
+                let manifests = self.tombstone(id, carried, &gone, &mut remote_first);
+                let live: BTreeSet<usize> = self.snaps[p].live.difference(&gone).copied().collect();
+                self.commit_snapshot(id, parent, manifests, live, "delete", step);
+            }
+            Op::Overwrite { sels, files } => {
+                self.seq += 1;
+                let id = self.new_snapshot_id();
+                let new: Vec<usize> = files.iter().map(|f| self.write_data(f)).collect();
+                let (gone, carried) = match parent {
+                    Some(p) if !self.snaps[p].live.is_empty() => (self.pick_gone(p, sels), self.carried(parent)),
+                    _ => (BTreeSet::new(), self.carried(parent)),
+                };
+                let mut manifests = self.manifests_for_new(id, &new, &[], &mut remote_first);
+                let rest = self.tombstone(id, carried, &gone, &mut remote_first);
+                manifests.extend(rest);
+                let mut live: BTreeSet<usize> =
+                    parent.map(|p| self.snaps[p].live.difference(&gone).copied().collect()).unwrap_or_default();
+                live.extend(new.iter().copied());
+                self.commit_snapshot(id, parent, manifests, live, "overwrite", step);
+            }
+            Op::RewriteManifests { split } => {
+                let p = match parent {
+                    Some(p) if !self.snaps[p].live.is_empty() => p,
+                    _ => {
+                        self.noops += 1;
+                        return;
+                    }
+                };
+                self.seq += 1;
+                let id = self.new_snapshot_id();
+                let mut data = vec![];
+                let mut dels = vec![];
+                for m in self.snaps[p].manifests.clone() {
+                    for f in self.live_entries_of(m) {
+                        if self.manifests[m].content == 0 {
+                            data.push((STATUS_EXISTING, f));
+                        } else {
+                            dels.push((STATUS_EXISTING, f));
+                        }
+                    }
+                }
+                let mut manifests = vec![];
+                if *split && data.len() >= 2 {
+                    let tail = data.split_off(data.len() / 2);
+                    let r = std::mem::replace(&mut remote_first, false);
+                    manifests.push(self.write_manifest(id, 0, tail, r));
+                }
+                if !data.is_empty() {
+                    let r = std::mem::replace(&mut remote_first, false);
+                    manifests.push(self.write_manifest(id, 0, data, r));
+                }
+                if !dels.is_empty() {
+                    let r = std::mem::replace(&mut remote_first, false);
+                    manifests.push(self.write_manifest(id, 1, dels, r));
+                }
+                let live = self.snaps[p].live.clone();
+                self.commit_snapshot(id, parent, manifests, live, "replace", step);
+            }
+            Op::RewriteMetadata { equal_ts } => {
+                let g = self.gens.last().unwrap();
+                let (snaps, current) = (g.snaps.clone(), g.current);
+                self.tick(*equal_ts, true);
+                self.commit_gen(snaps, current);
+            }
+            Op::Expire { keep, purge } => {
+                let g = self.gens.last().unwrap();
+                let (snaps, current) = (g.snaps.clone(), g.current);
+                if snaps.len() < 2 {
+                    self.noops += 1;
+                    return;
+                }
+                let keep = (*keep as usize).clamp(1, snaps.len() - 1);
+                let mut kept: Vec<usize> = snaps[snaps.len() - keep..].to_vec();
+                if let Some(c) = current {
+                    if !kept.contains(&c) {
+                        kept.insert(0, c);
+                    }
+                }
+                kept.sort();
+                self.tick(step.same_ms, false);
+                if *purge {
+                    self.purged = true;
+                    let mut keep_files = BTreeSet::new();
+                    let mut keep_manifests = BTreeSet::new();
+                    for s in &kept {
+                        keep_files.extend(self.snaps[*s].live.iter().copied());
+                        keep_manifests.extend(self.snaps[*s].manifests.iter().copied());
+                    }
+                    for s in &snaps {
+                        if kept.contains(s) {
+                            continue;
+                        }
+                        let _ = std::fs::remove_file(&self.snaps[*s].list_abs);
+                        for m in self.snaps[*s].manifests.clone() {
+                            if !keep_manifests.contains(&m) {
+                                let _ = std::fs::remove_file(&self.manifests[m].abs);
+                            }
+                        }
+                        for f in self.snaps[*s].live.clone() {
+                            if !keep_files.contains(&f) {
+                                let _ = std::fs::remove_file(&self.files[f].abs);
+                            }
+                        }
+                    }
+                    // files tombstoned in kept manifests but live nowhere any more
+                    for s in &kept {
+                        for m in self.snaps[*s].manifests.clone() {
+                            for (st, f) in self.manifests[m].entries.clone() {
+                                if st == STATUS_DELETED && !keep_files.contains(&f) {
+                                    let _ = std::fs::remove_file(&self.files[f].abs);
+                                }
+                            }
+                        }
+                    }
+                }
+                self.commit_gen(kept, current);
+            }
+            Op::Rollback { sel } => {
+                let g = self.gens.last().unwrap();
+                let snaps = g.snaps.clone();
+                if snaps.is_empty() {
+                    self.noops += 1;
+                    return;
+                }
+                let to = snaps[pick_idx(*sel, snaps.len())];
+                self.tick(step.same_ms, false);
+                self.commit_gen(snaps, Some(to));
+            }
+        }
+    }
+
+    /// the generation a reader must treat as current
+    fn finish(&mut self) -> usize {
+        let last = self.gens.len() - 1;
+        if self.c.naming == 0 {
+            let lag = if self.purged { 0 } else { (self.c.hint_lag as usize).min(last) };
+            let g = last - lag;
+            let n = g + 1;
+            let text = match self.c.hint_form % 4 {
+                0 => format!("{}", n),
+                1 => format!("v{}", n),
+                2 => format!("{}\n", n),
+                _ => format!(" v{} \n", n),
+            };
+            std::fs::write(self.dir.join("metadata/version-hint.text"), text).unwrap();
+            return g;
+        }
+        // newest update; equal timestamps: the later generation (see `tick`)
+        let mut best = 0;
+        for (i, g) in self.gens.iter().enumerate() {
+            if g.ts >= self.gens[best].ts {
+                best = i;
+            }
+        }
+        best
+    }
+
+    /// model verdict for a snapshot: Err(reason) = must be refused
+    fn expect(&self, s: usize) -> Result<Rows, String> {
+        let sn = &self.snaps[s];
+        if sn.list_remote {
+            return Err("manifest-list URI is remote".into());
+        }
+        if sn.manifests.iter().any(|m| self.manifests[*m].remote) {
+            return Err("a manifest URI is remote".into());
+        }
+        if sn.live.is_empty() {
+            return Err("snapshot has no live data file".into());
+        }
+        for f in &sn.live {
+            match self.files[*f].bad {
+                0 => {}
+                1 | 2 => return Err("live delete file".into()),
+                3 | 4 => return Err("live non-Parquet data file".into()),
+                _ => return Err("live remote data file".into()),
+            }
+        }
+        let mut rows = vec![];
+        for f in &sn.live {
+            rows.extend(self.files[*f].rows.iter().cloned());
+        }
+        Ok(rows)
+    }
+}
+
+fn iceberg_schema_json() -> serde_json::Value {
+    serde_json::json!({"type":"struct","schema-id":0,"fields":[
+        {"id":1,"name":"fid","required":false,"type":"long"},
+        {"id":2,"name":"k","required":false,"type":"long"},
+        {"id":3,"name":"s","required":false,"type":"string"}]})
+}
+
+// ---------------------------------------------------------------------------
+// the check
+// ---------------------------------------------------------------------------
+
+fn new_file() -> impl Strategy<Value = NewFile> {
+    let row = || (small_value(ColType::Int, 15), small_value(ColType::Str, 15)).prop_map(|(a, b)| vec![a, b]);
+    (
+        prop_oneof![
+            1 => proptest::collection::vec(row(), 0..1),
+            12 => proptest::collection::vec(row(), 1..5),
+        ],
+        prop_oneof![90 => Just(0u8), 1 => Just(1u8), 1 => Just(2u8), 1 => Just(3u8), 1 => Just(4u8), 1 => Just(5u8), 1 => Just(6u8)],
+    )
+        .prop_map(|(rows, bad)| NewFile { rows, bad })
+}
+
+fn op_strategy() -> impl Strategy<Value = Op> {
+    prop_oneof![
+        6 => (proptest::collection::vec(new_file(), 1..4), proptest::option::weighted(0.4, any::<u16>()))
+            .prop_map(|(files, merge_into)| Op::Append { files, merge_into }),
+        4 => proptest::collection::vec(any::<u16>(), 1..3).prop_map(|sels| Op::Remove { sels }),
+        2 => (proptest::collection::vec(any::<u16>(), 1..3), proptest::collection::vec(new_file(), 1..3))
+            .prop_map(|(sels, files)| Op::Overwrite { sels, files }),
+        3 => any::<bool>().prop_map(|split| Op::RewriteManifests { split }),
+        2 => any::<bool>().prop_map(|equal_ts| Op::RewriteMetadata { equal_ts }),
+        1 => (1u8..4, any::<bool>()).prop_map(|(keep, purge)| Op::Expire { keep, purge }),
+        1 => any::<u16>().prop_map(|sel| Op::Rollback { sel }),
+    ]
+}
+
+fn step_strategy() -> impl Strategy<Value = Step> {
+    (
+        op_strategy(),
+        prop_oneof![60 => Just(0u8), 1 => Just(1u8), 1 => Just(2u8)],
+        proptest::bool::weighted(0.2),
+    )
+        .prop_map(|(op, remote, same_ms)| Step { op, remote, same_ms })
+}
+
+pub struct IcebergHistories;
+
+impl IcebergHistories {
+    fn open(dir: &Path, target: Option<i64>) -> Result<(Rows, i64, Vec<PathBuf>, i64), String> {
+        let dir2 = dir.to_path_buf();
+        let opened = std::panic::catch_unwind(move || query_engine::storage::open_iceberg_table(&dir2, target))
+            .map_err(|p| format!("PANIC: {}", panic_text(p)))?
+            .map_err(|e| format!("open: {}", e))?;
+        let sid = opened.snapshot_id;
+        let files: Vec<PathBuf> = opened.table.files().to_vec();
+        let dir3 = dir.to_path_buf();
+        let mut ctx = ExecutionContext::new();
+        std::panic::catch_unwind(std::panic::AssertUnwindSafe(|| ctx.register_iceberg("t", &dir3, target)))
+            .map_err(|p| format!("PANIC: {}", panic_text(p)))?
+            .map_err(|e| format!("register: {}", e))?;
+        let rows = run_sql(&ctx, "SELECT * FROM t").map_err(|e| format!("select: {}", e))?;
+        let cnt = run_sql(&ctx, "SELECT COUNT(*) FROM t").map_err(|e| format!("count: {}", e))?;
+        let n = match cnt.first().and_then(|r| r.first()) {
+            Some(Value::Int(n)) => *n,
+            o => return Err(format!("count: unexpected result {:?}", o)),
+        };
+        Ok((rows, sid, files, n))
+    }
+}
+
+impl Check for IcebergHistories {
+    type Case = IceCase;
+    fn name(&self) -> &'static str {
+        "iceberg_histories"
+    }
+    fn rule(&self) -> &'static str {
+        "the current metadata lists >=2 snapshots, the history wrote a DELETED entry (a removal) and an EXISTING entry (a manifest rewrite), and at least one listed snapshot is served (not refused)"
+    }
+    fn cases(&self, tier: Tier) -> u32 {
+        tier.pick(1000, 30_000)
+    }
+    fn strategy(&self, tier: Tier) -> BoxedStrategy<IceCase> {
+        let max_steps = tier.pick(10usize, 18);
+        let first = (proptest::collection::vec(new_file(), 1..4), proptest::bool::weighted(0.1))
+            .prop_map(|(files, same_ms)| Step { op: Op::Append { files, merge_into: None }, remote: 0, same_ms });
+        let steps = prop_oneof![
+            1 => Just(vec![]),
+            1 => proptest::collection::vec(step_strategy(), 0..3),
+            40 => (first, proptest::collection::vec(step_strategy(), 0..max_steps)).prop_map(|(f, mut r)| {
+                r.insert(0, f);
+                r
+            }),
+        ];
+        (
+            (any::<bool>(), 0u8..4, 0u8..4, prop_oneof![4 => Just(0u8), 1 => Just(1u8), 1 => Just(2u8)], proptest::bool::weighted(0.3)),
+            (any::<bool>(), any::<bool>(), any::<bool>(), any::<bool>(), any::<bool>()),
+            prop_oneof![Just(2usize), Just(1usize << 20)],
+            proptest::collection::vec(0u8..4, 1..6),
+            any::<u64>(),
+            steps,
+        )
+            .prop_map(
+                |(
+                    (v2, naming, hint_form, hint_lag, clock_skew),
+                    (deflate, snaps_reversed, minus_one_current, drop_dead_manifests, crc_files),
+                    rg_size,
+                    uri_styles,
+                    seed,
+                    steps,
+                )| IceCase {
+                    v2,
+                    naming,
+                    hint_form,
+                    hint_lag,
+                    clock_skew,
+                    deflate,
+                    snaps_reversed,
+                    minus_one_current,
+                    drop_dead_manifests,
+                    crc_files,
+                    rg_size,
+                    uri_styles,
+                    seed,
+                    steps,
+                },
+            )
+            .boxed()
+    }
+    fn test(&self, c: &IceCase, obs: &mut Obs) -> Verdict {
+        let tmp = TempDir::new("c17");
+        let dir = tmp.path().join("tbl");
+        let mut w = World::new(c, dir.clone());
+        for s in &c.steps {
+            w.apply(s);
+        }
+        let g = w.finish();
+        let gen_snaps = w.gens[g].snaps.clone();
+        let gen_current = w.gens[g].current;
+
+        obs.label(format!("naming={}", c.naming));
+        obs.label(if c.v2 { "v2" } else { "v1" });
+        if g + 1 < w.gens.len() {
+            obs.label("current-generation-is-not-the-last-written");
+        }
+        if w.gens.iter().enumerate().any(|(i, x)| i != g && x.ts == w.gens[g].ts) {
+            obs.label("last-updated-ms tie");
+        }
+        if w.purged {
+            obs.label("purged");
+        }
+        for s in c.uri_styles.iter().collect::<BTreeSet<_>>() {
+            obs.label(format!("uri-style={}", s));
+        }
+
+        // targets: current, every listed snapshot, unknown ids
+        let mut targets: Vec<(Option<i64>, Result<(Rows, usize), String>)> = vec![];
+        let exp_of = |w: &World, s: usize| w.expect(s).map(|r| (r, s));
+        targets.push((
+            None,
+            match gen_current {
+                None => Err("table never written".into()),
+                Some(s) => exp_of(&w, s),
+            },
+        ));
+        for s in &gen_snaps {
+            targets.push((Some(w.snaps[*s].id), exp_of(&w, *s)));
+        }
+        for (i, s) in w.snaps.iter().enumerate() {
+            if !gen_snaps.contains(&i) {
+                targets.push((Some(s.id), Err("snapshot id not listed in the current metadata (expired or written later)".into())));
+                obs.label("unlisted-existing-snapshot-id");
+                break;
+            }
+        }
+        let mut fresh = 42i64;
+        while w.used_ids.contains(&fresh) {
+            fresh += 1;
+        }
+        targets.push((Some(fresh), Err("unknown snapshot id".into())));
+
+        let mut served = 0;
+        for (target, want) in &targets {
+            let got = Self::open(&dir, *target);
+            match (want, got) {
+                (Err(why), Ok((rows, sid, _, _))) => {
+                    return Verdict::Fail(format!(
+                        "open at {:?} must be refused ({}), but it resolved snapshot {} and returned {} rows:\n{}",
+                        target,
+                        why,
+                        sid,
+                        rows.len(),
+                        fmt_rows(&rows, 8)
+                    ));
+                }
+                (Err(why), Err(_)) => {
+                    obs.label(format!("refused: {}", why));
+                }
+                (Ok((rows, s)), Err(e)) => {
+                    return Verdict::Fail(format!(
+                        "open at {:?} failed: {}\nexpected snapshot {} with {} live files, {} rows",
+                        target,
+                        e,
+                        w.snaps[*s].id,
+                        w.snaps[*s].live.len(),
+                        rows.len()
+                    ));
+                }
+                (Ok((rows, s)), Ok((got_rows, sid, files, n))) => {
+                    served += 1;
+                    let sn = &w.snaps[*s];
+                    if sid != sn.id {
+                        return Verdict::Fail(format!("open at {:?} resolved snapshot {}, expected {}", target, sid, sn.id));
+                    }
+                    let want_files: BTreeSet<PathBuf> = sn.live.iter().map(|f| w.files[*f].abs.clone()).collect();
+                    let got_files: BTreeSet<PathBuf> = files.iter().cloned().collect();
+                    if want_files != got_files || files.len() != got_files.len() {
+                        return Verdict::Fail(format!(
+                            "open at {:?} (snapshot {}) resolved files {:?}, live files are {:?}",
+                            target, sn.id, files, want_files
+                        ));
+                    }
+                    if !multiset_eq(&got_rows, rows, 0.0) {
+                        return Verdict::Fail(format!(
+                            "SELECT * at {:?} (snapshot {}) returned\n{}but the live files hold\n{}",
+                            target,
+                            sn.id,
+                            fmt_rows(&got_rows, 12),
+                            fmt_rows(rows, 12)
+                        ));
+                    }
+                    if n != rows.len() as i64 {
+                        return Verdict::Fail(format!(
+                            "COUNT(*) at {:?} (snapshot {}) = {}, live files hold {} rows",
+                            target,
+                            sn.id,
+                            n,
+                            rows.len()
+                        ));
+                    }
+                }
+            }
+        }
+        obs.label(format!("served-targets={}", if served >= 4 { "4+".to_string() } else { served.to_string() }));
+        if w.noops > 0 {
+            obs.label("has-noop-step");
+        }
+        if gen_snaps.iter().any(|s| w.snaps[*s].manifests.iter().any(|m| w.manifests[*m].entries.iter().all(|(st, _)| *st == STATUS_DELETED))) {
+            obs.label("all-tombstone manifest carried");
+        }
+        obs.nontrivial(gen_snaps.len() >= 2 && w.wrote_deleted && w.wrote_existing && served >= 1);
+        obs.sample(serde_json::json!({
+            "steps": c.steps.len(), "generations": w.gens.len(), "current_generation": g,
+            "listed_snapshots": gen_snaps.len(), "targets": targets.len(), "served": served,
+            "files": w.files.len(), "manifests": w.manifests.len(),
+        }));
+        Verdict::Pass
+    }
+}
 
 pub fn property() -> Property {
-    Property { id: "C17", level: "exploration", assumptions: &[], checks: vec![] }
+    Property {
+        id: "C17",
+        level: "exploration",
+        assumptions: &[
+            "histories are the ones a spec-following writer commits: a data file is live in at most one manifest of a snapshot; a removed path is not re-added",
+            "equal last-updated-ms with different content is generated only under version-hint (hint decides) or NNNNN-<uuid> names (the engine documents the filename tie-break; the later generation is the newest update)",
+            "checked through storage::open_iceberg_table / ExecutionContext::register_iceberg; the legacy IcebergScanExec operator (JSON manifests) is not reachable from register_iceberg and is not covered",
+        ],
+        checks: vec![Box::new(IcebergHistories)],
+    }
 }
